@@ -132,7 +132,7 @@ Definition escape_shape (k : exk) (out : list fitem * result * bool) : bool :=
   && (count_func (mtoks t) =? 1).
 
 (** every path of both drivers, for every behaviour of the user function, every behaviour of
-    the serialiser the driver admits, and all four combinations of the protocol facts *)
+    the serialiser the driver allows, and all four combinations of the protocol facts *)
 Definition sweep_paths : bool :=
   forallb (fun drv => forallb (fun fn => forallb (fun se => forallb (fun af => forallb (fun dc =>
     if is_wsgi drv || is_noneb se
